@@ -352,6 +352,40 @@ func c06Child(a *ChildArgs) {
 				}
 			}
 		}
+		if a.Shard == 0 {
+			// one large script (above half a megabyte of output): size must not change what the funnel guarantees
+			g := gen.New(rand.New(rand.NewSource(base+77)), avoid)
+			var pool []string
+			for len(pool) < 60 {
+				sql := gen.Plain(g.Statement(2).Toks)
+				if _, err := gosqlx.Parse(sql); err == nil {
+					pool = append(pool, sql)
+				}
+			}
+			var sb strings.Builder
+			for k := 0; sb.Len() < 700<<10; k++ {
+				sb.WriteString(pool[k%len(pool)])
+				sb.WriteString(";\n")
+			}
+			script := sb.String()
+			if t0, err := gosqlx.Parse(script); err == nil {
+				want := dump.Tree(t0)
+				a.Rec.Count("evaluations", 1)
+				a.Rec.Count("large_script_bytes", int64(len(script)))
+				os.WriteFile(path, []byte(script), 0644)
+				var out, errb bytes.Buffer
+				_, ferr := gcmd.NewFormatter(&out, &errb, gcmd.CLIFormatterOptions{IndentSize: 2, Uppercase: true}).Format([]string{path})
+				y := out.String()
+				wit := map[string]interface{}{"script_bytes": len(script), "statements": len(t0.Statements), "first_statements": trunc(script, 600), "output_bytes": len(y)}
+				if ferr != nil || errb.Len() > 0 {
+					a.Rec.Viol("C06/cli-funnel/large-script#serialiser-error", "serialiser-error", fmt.Sprintf("err=%v stderr=%s", ferr, firstLine(errb.String())), wit)
+				} else if t2, err := gosqlx.Parse(y); err != nil {
+					a.Rec.Viol("C06/cli-funnel/large-script#output-rejected", "output-rejected", firstLine(err.Error()), wit)
+				} else if d := dump.Diff(want, dump.Tree(t2)); d != "" {
+					a.Rec.Viol("C06/cli-funnel/large-script#tree-changed", "tree-changed", trunc(d, 600), wit)
+				}
+			}
+		}
 	case "corpus":
 		for i, f := range CorpusFiles() {
 			c06One(a, "C06/corpus/"+f.Name, f.SQL, false, i)
